@@ -505,7 +505,7 @@ class C20Common(Harness):
         elif k == "dispatch":
             P = E.mod("physt.plotting")
             if p["bad"] == "backend":
-                r = E.attempt(P.plot, h, "bar", backend="no_such_backend")
+                r = E.attempt(P.plot, h, "bar", backend="no_such_backend", ax=RecAxes())   # (an axes object, so that a wrongly chosen backend could draw in both worlds)
             elif p["bad"] == "kind":
                 r = E.attempt(P.plot, h, "no_such_kind", backend="matplotlib", ax=RecAxes())
             elif p["bad"] == "kind_helper_mpl":
